@@ -197,6 +197,32 @@ def run(run_, ctx):
 ALTS = {("ser", "Bool"): [(0, 1), (2,)]}
 
 
+def unit_evidence(p):
+    """does the path know that the variant it found has `OwnedData::Unit` data?  Either a comparison with `OwnedData::Unit` whose outcome the
+    path depends on, or a discriminant test of a `.data` field that selected the payload-free variant"""
+    def is_unit(t):
+        t = norm(t)
+        while t[0] in ("ref", "pref") and isinstance(t[1], tuple):
+            t = norm(t[1]) if t[0] == "pref" else t
+            if t[0] == "ref":
+                break
+        return t[0] == "agg" and t[1] == "adt" and (t[2] or "").endswith("OwnedData") and t[3] == "Unit"
+    for e in p.events:
+        if e["k"] == "call" and e.get("name") in ("eq", "ne") and ((e.get("callee") or {}).get("trait") or "").endswith("cmp::PartialEq"):
+            vals = list(e["args"]) + [x for x in (e.get("snap") or []) if x is not None]
+            if any(is_unit(a) for a in vals):
+                want = e["name"] == "eq"
+                for c, truth, _k in p.pc:
+                    if norm(c) == norm(e["result"]) and truth is want:
+                        return True
+    for atom, v in p.tagfacts.items():
+        if atom[0] == "tag" and v == 0:
+            fp = dynarms.schema_arg_path(atom[1]) if hasattr(dynarms, "schema_arg_path") else ()
+            if fp and fp[-1] == "data":
+                return True
+    return False
+
+
 def check_tables(run_, F, helpers, RULE):
     for which, table in (("ser", ser_table()), ("de", de_table())):
         A = dynarms.Arms(F, helpers, which)
@@ -220,6 +246,11 @@ def check_tables(run_, F, helpers, RULE):
                     if not hit:
                         probs.append("encoder does `%s`; allowed for %s: %s" % (toks, arm, table[arm]))
                     seen_rows.update(hit)
+                    if arm == "Enum" and hit == [0] and not unit_evidence(p):
+                        # the bare-string form stands for a variant *without* payload only: serde_json writes `"Name"` for unit variants and an
+                        # object for the others, and the decoder of the index alone would then read a payload that was never written
+                        probs.append("a JSON string is accepted for an enum variant without checking that the variant carries no payload "
+                                     "(what is written cannot be decoded under the same schema)")
                 else:
                     ctor = ret_ctor(A, p)
                     hit = [i for i, (rx, c) in enumerate(table[arm]) if re.fullmatch(rx, toks)]
